@@ -181,4 +181,59 @@ void h_rawsound(void) {
     END();
 }
 
+#ifdef LAMBDAS
+// ---- O4: the undo-information choices of RevMoveGen::genMoves.  The five lambdas inside genMoves are internal functions of the translation unit; the pipeline
+// finds their symbol names in the IR (Unit.discover) and the harness calls the REAL functions through asm labels.  For a true (P, m, Q):
+//   validCapturePiece accepts the piece that was really captured; getBaseCastleMask <= castling rights of P <= base | getCastleAddMask, and every right offered has
+//   king and rook at home in P; getEpMask offers "no ep square" resp. the ep file of P, and every file offered is an ep square the FEN reader would accept for P.
+struct Clo { void* p; };
+bool lam_validCapturePiece(Clo*, const Position&, const Move&, int movingPiece, int captPiece) __asm__(LAM_VALIDCAP);
+int  lam_getBaseCastleMask(Clo*, const Position&, const Move&, int movingPiece) __asm__(LAM_BASE);
+int  lam_getCastleAddMask(Clo*, const Position&, const Move&, int movingPiece, int capturedPiece) __asm__(LAM_ADD);
+int  lam_getEpMask(Clo*, const Position&, const Move&, int movingPiece, int capturedPiece, bool all) __asm__(LAM_EPMASK);
+void h_undoinfo(void) {
+    int from, to, prom; UndoInfo ui;
+    Position& q = setup(from, to, prom, ui);
+    bool epCap, castleMove; pseudoLegal(gP, from, to, prom, epCap, castleMove);
+    bool moverWhite = gP.wtm;
+    Move m(Square(from), Square(to), prom);
+    int movingPiece = prom ? (moverWhite ? Piece::WPAWN : Piece::BPAWN) : q.getPiece(Square(to));     // as genMoves computes it
+    int captured = ui.capturedPiece;
+    int p0 = captured == 0 ? 0 : (captured > 6 ? captured - 6 : captured);                            // genMoves iterates over the white codes
+    char dummy = 0; Clo self{&dummy}; Clo selfEp{&self};
+    // captured piece
+    bool okCap = lam_validCapturePiece(&self, q, m, movingPiece, p0);                                 // real
+    verif_observe(okCap);
+    CHECK(okCap, "the piece that was really captured is among the captured-piece candidates");
+    CHECK((moverWhite ? (captured == 0 || captured > 6) : (captured <= 6)), "captured piece has the other colour");
+    // castling rights
+    int base = lam_getBaseCastleMask(&self, q, m, movingPiece);                                        // real
+    int add = lam_getCastleAddMask(&self, q, m, movingPiece, captured);                                // real
+    verif_observe(base); verif_observe(add);
+    CHECK((base & ~gP.castle) == 0, "every castling right taken as certain was held by the predecessor");
+    CHECK((gP.castle & ~(base | add)) == 0, "the predecessor's castling rights are among the combinations tried");
+    {   int all = base | add; bool home = true;
+        if (all & 1) home = home && pieceAt(gP, E1) == Piece::WKING && pieceAt(gP, A1) == Piece::WROOK;
+        if (all & 2) home = home && pieceAt(gP, E1) == Piece::WKING && pieceAt(gP, H1) == Piece::WROOK;
+        if (all & 4) home = home && pieceAt(gP, E8) == Piece::BKING && pieceAt(gP, A8) == Piece::BROOK;
+        if (all & 8) home = home && pieceAt(gP, E8) == Piece::BKING && pieceAt(gP, H8) == Piece::BROOK;
+        CHECK(home, "every castling right offered has king and rook at home in the predecessor"); }
+    // en-passant square
+    bool allEp = nondet_bool();
+    int mask = lam_getEpMask(&selfEp, q, m, movingPiece, captured, allEp);                             // real
+    verif_observe(mask);
+    if (gP.ep == -1) CHECK((mask >> 8) & 1, "'no en-passant square' is offered when the predecessor had none");
+    else if (allEp || epCap) CHECK((mask >> (gP.ep & 7)) & 1, "the predecessor's en-passant file is offered");
+    if (epCap) CHECK(to == gP.ep, "an en-passant capture lands on the predecessor's en-passant square");
+    {   int y = moverWhite ? 5 : 2, dy = moverWhite ? 1 : -1; int pawn = moverWhite ? Piece::WPAWN : Piece::BPAWN, oPawn = moverWhite ? Piece::BPAWN : Piece::WPAWN;
+        bool sound = true;
+        for (int x = 0; x < 8; x++) if ((mask >> x) & 1) {
+            bool ok = pieceAt(gP, x + 8 * (y + dy)) == 0 && pieceAt(gP, x + 8 * y) == 0 && pieceAt(gP, x + 8 * (y - dy)) == oPawn &&
+                      ((x > 0 && pieceAt(gP, x - 1 + 8 * (y - dy)) == pawn) || (x < 7 && pieceAt(gP, x + 1 + 8 * (y - dy)) == pawn));
+            sound = sound && ok; }
+        CHECK(sound, "every en-passant file offered is a square a double push could have just created in the predecessor, with a pawn next to it"); }
+    END();
+}
+#endif
+
 } // extern "C"
